@@ -120,6 +120,10 @@ def run(tier, seed, res, lean):
     for p in [p for o in gf for p in o[1]][:3]:
         res.violations.append(Violation('c05-grouped-collision', p['msg'][:400], {'suite': 'S-GHASH/grouped', **p}))
     res.coverage['grouped_family_variants'] = sum(o[0] for o in gf)
+    from .. import suite_lru
+    ce = pmap(suite_lru.run_columns_and_entries, [(seed * 73 + i + 1, 3 if tier == 'quick' else 20) for i in range(16)])
+    for p in [p for o in ce for p in o[1]][:3]:
+        res.violations.append(Violation('c05-shard-key-is-entry-key', p['msg'][:400], {'suite': 'S-COL/columns+entries', **p}))
     from .. import suite_hash as _sh
     for p in [p for i in range(3 if tier == 'quick' else 20) for p in _sh.run_default_keywords(seed * 5 + i) if p['kind'] in ('collision', 'error')][:2]:
         res.violations.append(Violation('c05-default-keywords', p['msg'][:400], {'suite': 'S-HASH/default-keywords', **p}))
